@@ -5,7 +5,7 @@ from rules.common import (opmap, sends_to, PredTrue, PredFalse, TryOk, CallTrue,
                           effects_signature)
 from rules.C15 import POS_OWNER, SENDER_IS_PM, SENDER_IS_RECV, RECV_NONE
 from base import CutPolicy, dep_origins
-from rules.common import rel, rel_sign, om, find_rel
+from rules.common import rel, rel_sign, om, find_rel, AnyOf
 from absint import EMPTY, vfield, tagvals, const_of
 
 EXPLANATION = ("static analysis (MIR abstract interpretation): owner/delegate guard cut-sets for every position action; the normal "
@@ -41,6 +41,9 @@ EMERGENCY_SOME = PredTrue("emergency_unlock.is_some()", pred_test("is_some", r"^
 IS_EXPIRED_T = CallTrue(r"::is_expired$", "is_expired(now)", True)
 IS_EXPIRED_F = CallTrue(r"::is_expired$", "!is_expired(now)", False)
 HAS_EXPIRY = PredTrue("expiring_at.is_some()", pred_test("is_some", r"^Store\(POSITIONS\)\.expiring_at$"))
+# the same two eligibility conditions written inline (`match position.expiring_at { None => Err, Some(t) if t > now => Err, .. }`)
+EXPIRED_ANY = AnyOf("is_expired(now)", [IS_EXPIRED_T, PredTrue("expiring_at <= now", rel(r"^Store\(POSITIONS\)\.expiring_at", "<=", r"^env\.block\.time", False))])
+HAS_EXPIRY_ANY = AnyOf("expiring_at.is_some()", [HAS_EXPIRY, VariantEdge("expiring_at is Some", r"^Store\(POSITIONS\)\.expiring_at$", ["Some"])])
 FLOORS = {"CUT-owner": 5, "WHO-positions-writes": 10, "PROV-position-fields": 8}
 WRITES = {("ManagePosition", ".action", "Create"): {"save": 1}, ("ManagePosition", ".action", "Expand"): {"save": 1},
           ("ManagePosition", ".action", "Close"): {"save": 2}, ("ManagePosition", ".action", "Withdraw"): {"remove": 1}}
@@ -84,7 +87,7 @@ def run(W, chk):
 
     # ---- withdraw: normal path
     wd = ("ManagePosition", ".action", "Withdraw")
-    for nm, cuts in (("unlock instant", [IS_EXPIRED_T]), ("closed position", [HAS_EXPIRY])):
+    for nm, cuts in (("unlock instant", [EXPIRED_ANY]), ("closed position", [HAS_EXPIRY_ANY])):
         pol = CutPolicy(cuts + [EMERGENCY_FLAG])
         A = W.run(fm, "execute", wd, pol)
         ok = all(c.name in pol.hits for c in cuts + [EMERGENCY_FLAG]) and not A.effects()
